@@ -293,6 +293,20 @@ fn case(t: &mut Tape, st: &mut Stats, max_depth: usize) -> Verdict {
         std::fs::write(&p, file_text(f)).expect("write");
     }
     let root_path = format!("{}/root.ds", dir);
+    // one tree in ten: the root file is a symbolic link to a file in another directory (relative paths resolve
+    // against the directory of the path the file was reached by), with decoys of the top-level files next to the target
+    if g.t.chance(1, 10) {
+        let target_dir = format!("{}/zz_target", dir);
+        let _ = std::fs::create_dir_all(&target_dir);
+        if std::fs::rename(&root_path, format!("{}/root_impl.ds", target_dir)).is_ok() && std::os::unix::fs::symlink("zz_target/root_impl.ds", &root_path).is_ok() {
+            for f in files.iter().skip(1) {
+                if !f.rel.contains('/') {
+                    let _ = std::fs::write(format!("{}/{}", target_dir, f.rel), "emit decoy-next-to-the-link-target\n");
+                }
+            }
+            st.class("root-file-reached-through-a-symlink");
+        }
+    }
     let abs = |rel: &str| format!("{}/{}", root_abs, rel);
     let describe = |what: &str, extra: serde_json::Value| {
         json!({"files": files.iter().map(|f| json!({"path": f.rel, "text": file_text(f)})).collect::<Vec<_>>(), "mismatch": what, "detail": extra})
@@ -494,7 +508,7 @@ fn case_t(t: &mut Tape, st: &mut Stats) -> Verdict {
 pub fn property() -> Property {
     Property {
         id: "C14",
-        rule: "acyclic include trees (depth <= 3 quick / 5 thorough, <= 9 files) written to a tmpfs scratch directory: files in nested directories (names with spaces and non-ASCII), referenced by ./relative, bare relative, ../ and absolute paths, directives listing several files or the same leaf file twice, at first / middle / last line (one tree in forty ends with a chain of 65..160 files each including the next, or with one directive naming 40..120 files); bodies made of emit / set / if-blocks / function definitions (called from later files) / run-time errors with get_last_error_line/source probes. Oracle: (1) parse_file(root) equals parse_text(paste(root)) instruction for instruction (own recursive inliner; directive line = no-op placeholder), (2) every instruction's meta_info is (canonical path of the file it was written to, its line there), (3) run_script_file(root) and run_script(pasted) give the same emit trace, final variables and outcome, (4) planted faults: a missing file gives ErrorReadingFile naming it, a malformed line (C08 kinds) gives the matching kind with that file and line, run-time errors in included code report the included file and its own line. Non-trivial: tree depth >= 2, a file included twice, or an include not at line 1; distinct by tree",
+        rule: "acyclic include trees (depth <= 3 quick / 5 thorough, <= 9 files) written to a tmpfs scratch directory: files in nested directories (names with spaces and non-ASCII), referenced by ./relative, bare relative, ../ and absolute paths (one tree in ten has its root file reached through a symbolic link to another directory that holds decoys), directives listing several files or the same leaf file twice, at first / middle / last line (one tree in forty ends with a chain of 65..160 files each including the next, or with one directive naming 40..120 files); bodies made of emit / set / if-blocks / function definitions (called from later files) / run-time errors with get_last_error_line/source probes. Oracle: (1) parse_file(root) equals parse_text(paste(root)) instruction for instruction (own recursive inliner; directive line = no-op placeholder), (2) every instruction's meta_info is (canonical path of the file it was written to, its line there), (3) run_script_file(root) and run_script(pasted) give the same emit trace, final variables and outcome, (4) planted faults: a missing file gives ErrorReadingFile naming it, a malformed line (C08 kinds) gives the matching kind with that file and line, run-time errors in included code report the included file and its own line. Non-trivial: tree depth >= 2, a file included twice, or an include not at line 1; distinct by tree",
         assumptions: &[
             "cyclic trees are not generated (C07 covers the cycle probe); no line-valued jumps in bodies",
             "paths are compared after canonicalisation",
@@ -507,7 +521,7 @@ pub fn property() -> Property {
                     Tier::Thorough => Plan::Skip,
                 },
                 case: case_q,
-                min_classes: &[("tree-depth-2", 500), ("file-included-twice", 100), ("include-not-at-first-line", 1000), ("planted-missing-file", 200), ("planted-malformed-line", 500), ("runtime-error-inside-included-file", 100), ("include-chain-deeper-than-64", 150), ("included-file-named-like-its-includer-in-other-letter-case", 1000), ("directive-naming-40-or-more-files", 150)],
+                min_classes: &[("tree-depth-2", 500), ("file-included-twice", 100), ("include-not-at-first-line", 1000), ("planted-missing-file", 200), ("planted-malformed-line", 500), ("runtime-error-inside-included-file", 100), ("include-chain-deeper-than-64", 150), ("root-file-reached-through-a-symlink", 2000), ("included-file-named-like-its-includer-in-other-letter-case", 1000), ("directive-naming-40-or-more-files", 150)],
             },
             Section {
                 name: "deep-trees",
